@@ -38,7 +38,7 @@ ASSUMPTIONS = ['per-sample value vectors have one value per sample; values are s
                'add_cycle_metric returning (not raising) its ValueError on a length mismatch is canonicalised to a rejection: the store is unchanged either way']
 THR = 1.5 * np.pi
 FNAMES = ['mean', 'max', 'sum', 'len', 'first', 'last', 'nunique']
-RULE = ('sequences: exhaustive over a 10-operation alphabet up to length 3 (quick) / 4 (thorough) on alphabet phases, plus random '
+RULE = ('sequences: exhaustive over a 10-operation alphabet up to length 3 (quick) / 4 (thorough) on three alphabet phases (one shorter on the zero-cycle phase), plus random '
         'sequences up to length 12 on synthetic phases (variable, noisy, occasionally reversing frequency; 1-400 samples; phases without any '
         'wrap included); operations {compute metric (cycle / augmented) with %s, add metric (right and wrong length, reserved names), '
         'compute timings, pick subset with 1-3 conditions over == != < <= > >= and negative / decimal / exponent literals, chain timings, '
@@ -518,7 +518,7 @@ def check_trace(case, tr, tag):
                          'mask_conditions %s but the subset was selected with %s' % (sel['conds'], pick['conds']))
                 if sub != oracle_rank(pick['valids']):
                     fail('subset-changed-without-selection', i, str(sub))
-            if not chain_ind_user and len(sub) == K and ch == oracle_chains(sub):
+            if not chain_ind_user and len(sub) == K and ch == oracle_chains(sub) and sub == oracle_rank([x >= 0 for x in sub]):
                 exp = [float(ch[s]) if s >= 0 else -1.0 for s in sub]
                 if 'chain_ind' not in md or not _leq(md['chain_ind'], exp):
                     fail('chain_ind-disagrees', i, 'chain_ind %s, subset %s chains %s' % (md.get('chain_ind'), sub, ch))
@@ -537,7 +537,8 @@ def check_trace(case, tr, tag):
             fail('subset-export-raises:' + st['TS']['err'], i, 'no selection')
         # ---- chain timings ---------------------------------------------------------------------
         if op and op['op'] == 'chain_timings':
-            if st['st'] == 'ok' and sel is not None and sel['sub'] is not None and len(sel['sub']) == K:
+            if st['st'] == 'ok' and sel is not None and sel['sub'] is not None and len(sel['sub']) == K \
+                    and sel['sub'] == oracle_rank([x >= 0 for x in sel['sub']]):
                 chain_stale = set()
                 sub, ch = sel['sub'], oracle_chains(sel['sub'])
                 n = len(lab)
@@ -559,6 +560,23 @@ def check_trace(case, tr, tag):
                     fail('chain-timing-value:chain_position', i, '%s expected %s' % (md.get('chain_position'), exp))
             elif st['st'] != 'ok' and sel is not None:
                 fail('chain-timings-raise:' + st['st'], i, 'selection %s' % sel)
+        if op and op['op'] == 'chain_metric':
+            if st['st'] == 'ok' and sel is not None and sel['sub'] is not None and len(sel['sub']) == K \
+                    and sel['sub'] == oracle_rank([x >= 0 for x in sel['sub']]):
+                sub, ch = sel['sub'], oracle_chains(sel['sub'])
+                n = len(lab)
+                exp = []
+                for k in range(K):
+                    if sub[k] < 0:
+                        exp.append(-1.0 if op['int'] else None)
+                        continue
+                    cyc = [kk for kk in range(K) if sub[kk] >= 0 and ch[sub[kk]] == ch[sub[k]]]
+                    v = float(PYF[op['f']]([op['vals'][j] for j in range(n) if lab[j] in cyc]))
+                    exp.append(float(int(v)) if op['int'] else v)      # astype(int) truncates toward zero
+                if op['name'] not in md or not _leq(md[op['name']], exp):
+                    fail('chain-metric-value', i, '%s = %s expected %s' % (op['name'], md.get(op['name']), exp))
+            elif st['st'] != 'ok' and sel is not None:
+                fail('chain-metric-raises:' + st['st'], i, 'selection %s' % sel)
         # ---- exports ----------------------------------------------------------------------------
         ta = st['TA']
         if 'err' in ta:
@@ -626,7 +644,11 @@ class _Base(Stream):
                 fs.setdefault('constructor-raises:' + out[key]['init_error'],
                               Failure('constructor-raises:' + out[key]['init_error'], 'cache %s phase %s' % (key, case['phase'][:12])))
             else:
-                for k, f in check_trace(case, out[key]['trace'], 'cache-' + key).items():
+                try:
+                    found = check_trace(case, out[key]['trace'], 'cache-' + key)
+                except Exception as e:  # noqa  (an oracle tripping over an ill-formed state is itself a failure)
+                    found = {'instance-check-crashed': Failure('instance-check-crashed', repr(e))}
+                for k, f in found.items():
                     fs.setdefault(k, f)
         d = trace_diff(out['on'], out['off'])
         if d:
@@ -744,10 +766,7 @@ class Exhaustive(_Base):
             n = len(ph)
             K = len(_cyc.segments_of(ph, _cyc.DEFAULT_STEP))
             alpha = exh_alphabet(n, K)
-            if pi == 2 and tier != 'thorough':
-                L_here = 2
-            else:
-                L_here = L
+            L_here = L - 1 if pi == 2 else L      # the zero-cycle container: shorter sequences
             for length in range(0, L_here + 1):
                 for seq in itertools.product(range(len(alpha)), repeat=length):
                     yield {'phase': ph, 'step': None, 'edge': None, 'probe': ['is_good==1', 'm>2'] if pi else ['duration!=3'],
@@ -844,6 +863,12 @@ class Random(_Base):
                      {'op': 'add', 'name': 'is_good', 'vals': [0.0, 1.0, 0.0, 1.0, 1.0]},
                      {'op': 'pick', 'conds': ['is_good!=0'], 'as_str': 1},
                      {'op': 'add', 'name': 'chain_ind', 'vals': [5.0, 5.0, 5.0, 5.0, 5.0]}, {'op': 'chain_timings'}]},
+            # dtype=int chain metric truncates a non-integral statistic (model first left it untruncated)
+            {'phase': ph, 'step': None, 'edge': None, 'probe': ['cs==0'],
+             'ops': [{'op': 'pick', 'conds': ['is_good>-1.0e-02']},
+                     {'op': 'chain_metric', 'name': 'cs', 'f': 'mean', 'vals': [-5, -4, -3, 3, 4, 5, 0, 1, 2, -3, -2, -1, 5, -5], 'int': 1},
+                     {'op': 'chain_metric', 'name': 'cn', 'f': 'mean', 'vals': [-5, -4, -3, -3, 4, -5, 0, -1, 2, -3, -2, -1, -5, -5], 'int': 1},
+                     {'op': 'chain_metric', 'name': 'cf', 'f': 'mean', 'vals': [-5, -4, -3, -3, 4, -5, 0, -1, 2, -3, -2, -1, -5, -5], 'int': 0}]},
             # all six comparators, negative / decimal / exponent literals, NaN entries
             {'phase': ph, 'step': None, 'edge': None, 'probe': ['duration>=-1.5e0', 'a!=3.5', 'm<1e1'],
              'ops': [{'op': 'timings'}, {'op': 'compute', 'name': 'a', 'f': 'mean', 'mode': 'augmented', 'vals': _idx(n)},
@@ -857,7 +882,7 @@ class Random(_Base):
         ]
 
     def generate(self, rng, tier):
-        for i in range(1500 if tier == 'thorough' else 220):
+        for i in range(4000 if tier == 'thorough' else 220):
             yield self.one(rng)
 
     def one(self, rng):
